@@ -76,19 +76,28 @@ Cat ==
   \cup {<<TPtr(TNamed(id)), x>> : id \in {"ZeroT", "FoldT", "RegT", "RegObj"}, x \in {VNil("ptr"), VPtr(VStruct(<<Leaf(tInt, 1)>>))}}
   \cup {<<TSlice(TNamed(id)), VSlice(<<VStruct(<<Leaf(tInt, 1)>>)>>)>> : id \in {"RegT", "FoldObj"}}
 
-\* ---- systematic nestings: every composition of two and three of {pointer, slice, map} over a scalar, a string and a
-\* struct, each with a value that is filled down to the leaf and one that is nil at its innermost constructor
-Ctors == {"ptr", "slice", "map"}
-Wrap(cn, t) == CASE cn = "ptr" -> TPtr(t) [] cn = "slice" -> TSlice(t) [] OTHER -> TMap(t)
-\* (member names differ per nesting level: a name that leaks from one level to another must show)
-WrapV(cn, x, lvl) == CASE cn = "ptr" -> VPtr(x) [] cn = "slice" -> VSlice(<<x>>) [] OTHER -> VMap(<<KV(<<106 + lvl>>, x)>>)
+\* ---- systematic nestings: every composition of two and three of {pointer, slice, map, interface} over a scalar, a
+\* string and a struct, each with a value that is filled down to the leaf and one that is nil at its innermost
+\* constructor (member names differ per nesting level: a name that leaks from one level to another must show)
+Ctors == {"ptr", "slice", "map", "iface"}
+\* wrap a (type, value) pair / the nil value of a constructor over a type
+NW(cn, tv, lvl) ==
+  CASE cn = "ptr" -> <<TPtr(tv[1]), VPtr(tv[2])>>
+    [] cn = "slice" -> <<TSlice(tv[1]), VSlice(<<tv[2]>>)>>
+    [] cn = "map" -> <<TMap(tv[1]), VMap(<<KV(<<106 + lvl>>, tv[2])>>)>>
+    [] OTHER -> <<tIface, VIface(tv[1], tv[2])>>
+NN(cn, T) ==
+  CASE cn = "ptr" -> <<TPtr(T), VNil("ptr")>>
+    [] cn = "slice" -> <<TSlice(T), VNil("slice")>>
+    [] cn = "map" -> <<TMap(T), VNil("map")>>
+    [] OTHER -> <<tIface, VNil("iface")>>
 NestBases == {<<tInt, Leaf(tInt, 1)>>, <<tStr, Leaf(tStr, 1)>>, <<S1, S1Val(1, 1)>>}
 Nest2 ==
-  {<<Wrap(c1, Wrap(c2, b[1])), WrapV(c1, WrapV(c2, b[2], 2), 1)>> : c1 \in Ctors, c2 \in Ctors, b \in NestBases}
-  \cup {<<Wrap(c1, Wrap(c2, b[1])), WrapV(c1, VNil(c2), 1)>> : c1 \in Ctors, c2 \in Ctors, b \in NestBases}
+  {NW(c1, NW(c2, b, 2), 1) : c1 \in Ctors, c2 \in Ctors, b \in NestBases}
+  \cup {NW(c1, NN(c2, b[1]), 1) : c1 \in Ctors, c2 \in Ctors, b \in NestBases}
 Nest3 ==
-  {<<Wrap(c1, Wrap(c2, Wrap(c3, b[1]))), WrapV(c1, WrapV(c2, WrapV(c3, b[2], 3), 2), 1)>> : c1 \in Ctors, c2 \in Ctors, c3 \in Ctors, b \in NestBases}
-  \cup {<<Wrap(c1, Wrap(c2, Wrap(c3, b[1]))), WrapV(c1, WrapV(c2, VNil(c3), 2), 1)>> : c1 \in Ctors, c2 \in Ctors, c3 \in Ctors, b \in NestBases}
+  {NW(c1, NW(c2, NW(c3, b, 3), 2), 1) : c1 \in Ctors, c2 \in Ctors, c3 \in Ctors, b \in NestBases}
+  \cup {NW(c1, NW(c2, NN(c3, b[1]), 2), 1) : c1 \in Ctors, c2 \in Ctors, c3 \in Ctors, b \in NestBases}
 
 \* tag variants: [tname, tb, opts]
 Tags ==
